@@ -3,10 +3,11 @@ INVARIANT Inv
 CHECK_DEADLOCK FALSE
 CONSTANTS
   TagPositions = {1,2,3,4,5,6,7,8,9,10,11,12,13,14,15,16}
-  Families = {"aead", "siv"}
+  Families = {"aead", "siv", "isap"}
   PermOp <- SPermOp
   BX <- SBX
   BC <- SBC
   BBit <- SBBit
   BBase <- SBBase
+  BHas <- SBHas
   RekeyOp <- SRekeyOp
